@@ -31,8 +31,11 @@ type Case struct {
 	// Switch: a round aimed at the list-to-map switch: the list is filled to exactly 256 entries
 	// first; then one writer performs the 257th Add while the other writers remove ranges they
 	// added before and readers probe. Unique: the switching Add uses a prefix length nothing else has.
-	Switch bool  `json:"switch,omitempty"`
-	Unique bool  `json:"unique,omitempty"`
+	Switch bool `json:"switch,omitempty"`
+	Unique bool `json:"unique,omitempty"`
+	// Toggle: one writer toggles one range, watchers look up one fixed address inside it (Ops =
+	// number of toggles; Unique = filter already in map mode)
+	Toggle bool  `json:"toggle,omitempty"`
 	Seed   int64 `json:"seed"`
 }
 
@@ -78,7 +81,7 @@ type suspicious struct {
 
 type stats struct {
 	probes, probesOverlapWrite, probesDuringMigration, togglerIntervals, writerOps, selfChecks, trials, crossed int64
-	neverTrueExcused, switchRounds                                                                              int64
+	neverTrueExcused, switchRounds, toggleRounds, toggleJudged                                                  int64
 }
 
 const nStable = 32
@@ -154,6 +157,19 @@ func runSwitch(cs Case, st *stats) (key, expected, observed string) {
 				}
 			}()
 			<-start
+			if cs.Seed%3 != 0 {
+				// an Add racing with the switching Add: both find the list full
+				ip := uint32(40+j)<<24 | uint32(251)<<8
+				if err := f.Add(cidr(ip|0x3, 26)); err != nil {
+					errs[j] = err.Error()
+					return
+				}
+				models[j][pfx{ip & mask(26), 26}] = struct{}{}
+				if !f.Contains(u2ip(ip | 1)) {
+					errs[j] = fmt.Sprintf("own-update-lost: Contains(%s)=false right after the writer's own Add returned (two Adds met the full list)", u2ip(ip|1))
+					return
+				}
+			}
 			for i := 0; i < nrem && i < per; i++ {
 				ip := uint32(40+j)<<24 | uint32(i+1)<<8
 				if err := f.Remove(cidr(ip|0x9, 24)); err != nil {
@@ -223,12 +239,105 @@ func runSwitch(cs Case, st *stats) (key, expected, observed string) {
 	if !f.Contains(u2ip(swIP&mask(swOnes) | 1)) {
 		return "switch:final-missing", "the range whose Add switched the filter is present afterwards", "false"
 	}
+	for j := 1; j < w; j++ {
+		a := uint32(40+j)<<24 | uint32(251)<<8 | 2
+		if got, want := f.Contains(u2ip(a)), models[j].contains(a); got != want {
+			return "switch:final-missing", fmt.Sprintf("after the run Contains(%s)=%v: writer %d added that /26 while another writer's Add switched the filter to maps", u2ip(a), want, j), fmt.Sprint(got)
+		}
+	}
+	return "", "", ""
+}
+
+// runToggle: one writer toggles a single range (Add / Remove, with short quiet periods) while
+// watcher goroutines look up ONE fixed address inside it over and over. The writer publishes a
+// phase counter: even = quiescent (membership known), odd = an update is in progress. A lookup
+// whose phase reading is the same even number before and after the call ran entirely inside a
+// quiescent period, so its answer is fixed by the statement.
+func runToggle(cs Case, st *stats) (key, expected, observed string) {
+	f := netutil.NewIPv4Filter()
+	for i := 0; i < nStable; i++ {
+		f.Add(cidr(20<<24|uint32(i)<<16, 16))
+	}
+	if cs.Unique { // the same in map mode
+		for i := 0; i < 300; i++ {
+			f.Add(cidr(60<<24|uint32(i)<<8, 24))
+		}
+	}
+	rng := cidr(10<<24|20<<16, 16)
+	addr := u2ip(10<<24 | 20<<16 | 30<<8 | 40)
+	var phase atomic.Uint64 // even: quiescent; (phase/2)%2 == 1: range present
+	var stop atomic.Bool
+	var rg sync.WaitGroup
+	errs := make([]string, cs.Readers)
+	judged := make([]int64, cs.Readers)
+	for rd := 0; rd < cs.Readers; rd++ {
+		rg.Add(1)
+		go func(rd int) {
+			defer rg.Done()
+			defer func() {
+				if p := recover(); p != nil {
+					errs[rd] = fmt.Sprint("panic: ", p)
+				}
+			}()
+			other := u2ip(20<<24 | uint32(rd)<<16 | 5)
+			for i := 0; !stop.Load(); i++ {
+				p0 := phase.Load()
+				got := f.Contains(addr)
+				p1 := phase.Load()
+				if p0 == p1 && p0%2 == 0 {
+					judged[rd]++
+					if want := (p0/2)%2 == 1; got != want {
+						errs[rd] = fmt.Sprintf("Contains(%s)=%v during a quiescent period in which 10.20.0.0/16 was %s (phase %d; the lookup began and ended inside it)", addr, got, map[bool]string{true: "present", false: "absent"}[want], p0)
+						return
+					}
+				}
+				if i%3 == 0 {
+					f.Contains(other) // another address in between
+				}
+				if i%4 == 0 {
+					runtime.Gosched() // keep the writer scheduled when there are more watchers than processors
+				}
+			}
+		}(rd)
+	}
+	r := rand.New(rand.NewSource(cs.Seed))
+	for i := 0; i < cs.Ops; i++ {
+		phase.Add(1) // odd: updating
+		var err error
+		if i%2 == 0 {
+			err = f.Add(rng)
+		} else {
+			err = f.Remove(rng)
+		}
+		phase.Add(1) // even: quiescent, membership = (phase/2)%2
+		if err != nil {
+			stop.Store(true)
+			rg.Wait()
+			return "toggle:op-error", "nil", err.Error()
+		}
+		for k := r.Intn(40); k > 0; k-- { // quiet period of varying length
+			runtime.Gosched()
+		}
+	}
+	stop.Store(true)
+	rg.Wait()
+	st.trials++
+	st.toggleRounds += int64(cs.Ops)
+	for rd := range errs {
+		st.toggleJudged += judged[rd]
+		if errs[rd] != "" {
+			return "toggle:stale-lookup", "a lookup that runs entirely while a range is present (absent) returns true (false)", errs[rd]
+		}
+	}
 	return "", "", ""
 }
 
 func runCase(cs Case, st *stats) (key, expected, observed string) {
 	if cs.Switch {
 		return runSwitch(cs, st)
+	}
+	if cs.Toggle {
+		return runToggle(cs, st)
 	}
 	f := netutil.NewIPv4Filter()
 	for i := 0; i < nStable; i++ {
@@ -490,13 +599,14 @@ type mon struct{}
 func (mon) Name() string { return "ipfilterconc" }
 
 func (mon) Level(string) (string, string) {
-	return "exploration", "trials: fresh filter with 32 stable /16 ranges; 2 or 4 writers (each owning a disjoint /8, 150..300 seeded Add/Remove ops with nested and repeated prefixes, probing its own range after every op), 2 or 8 readers probing stable addresses (must be true) and never-added addresses (must be false unless the logical interval of the call meets a 0.0.0.0/0 on-interval of the toggler), total adds crossing the 256-entry list→map switch while readers run; afterwards full agreement with the per-writer sequential models. Plus 'switch rounds': the list is filled to exactly 256 entries, then one writer's Add (with a common or a unique prefix length) switches the filter to maps while the other writers remove ranges they added and readers probe; final state compared with the per-writer models. Plain at GOMAXPROCS 2/4/16 and under -race (race runs without the logical clock). distinct_nontrivial = distinct trials (configuration, seed) in which lookups overlapped writes"
+	return "exploration", "trials: fresh filter with 32 stable /16 ranges; 2 or 4 writers (each owning a disjoint /8, 150..300 seeded Add/Remove ops with nested and repeated prefixes, probing its own range after every op), 2 or 8 readers probing stable addresses (must be true) and never-added addresses (must be false unless the logical interval of the call meets a 0.0.0.0/0 on-interval of the toggler), total adds crossing the 256-entry list→map switch while readers run; afterwards full agreement with the per-writer sequential models. Plus 'switch rounds': the list is filled to exactly 256 entries, then one writer's Add (with a common or a unique prefix length) switches the filter to maps while the other writers remove ranges they added and readers probe; final state compared with the per-writer models (the other writers may also Add at that moment). Plus 'toggle' trials: one writer toggles one range 400 times with short quiet periods while 2-8 watchers look up one fixed address inside it; a lookup that began and ended inside one quiescent period (phase counter read before and after) must report that period's membership. Plain at GOMAXPROCS 2/4/16 and under -race (race runs without the logical clock). distinct_nontrivial = distinct trials (configuration, seed) in which lookups overlapped writes"
 }
 
 type shardArgs struct {
 	Trials int  `json:"trials"`
 	Part   int  `json:"part"`
 	Switch bool `json:"switch,omitempty"`
+	Toggle bool `json:"toggle,omitempty"`
 }
 
 func (mon) Plan(prop, tier string, seed int64) []drv.Shard {
@@ -514,6 +624,8 @@ func (mon) Plan(prop, tier string, seed int64) []drv.Shard {
 		out = append(out, drv.Shard{Name: "switch-gomaxprocs" + gmp, Args: a, Env: []string{"GOMAXPROCS=" + gmp}})
 		a, _ = json.Marshal(shardArgs{Trials: raceTrials * 20, Part: 30 + i, Switch: true})
 		out = append(out, drv.Shard{Name: "switch-race-gomaxprocs" + gmp, Args: a, Env: []string{"GOMAXPROCS=" + gmp}, Race: true})
+		a, _ = json.Marshal(shardArgs{Trials: trials / 3, Part: 40 + i, Toggle: true})
+		out = append(out, drv.Shard{Name: "toggle-gomaxprocs" + gmp, Args: a, Env: []string{"GOMAXPROCS=" + gmp}})
 	}
 	return out
 }
@@ -528,11 +640,14 @@ func (mn mon) Run(sh drv.Shard, c *drv.Ctx) {
 		if a.Switch {
 			cs = Case{Writers: 2 + r.Intn(3), Readers: 1 + r.Intn(2), Switch: true, Unique: r.Intn(2) == 0, Seed: r.Int63()}
 		}
+		if a.Toggle {
+			cs = Case{Readers: 2 + r.Intn(7), Ops: 400, Toggle: true, Unique: r.Intn(2) == 0, Seed: r.Int63()}
+		}
 		c.Progress(fmt.Sprintf("%+v", cs), true)
 		before := st.probesOverlapWrite
 		k, e, o := runCase(cs, st)
 		c.Eval(1)
-		if st.probesOverlapWrite > before || cs.Switch {
+		if st.probesOverlapWrite > before || cs.Switch || cs.Toggle {
 			c.DistinctStr(fmt.Sprintf("%+v", cs))
 		}
 		if c.NumSamples() < 2 {
@@ -546,6 +661,8 @@ func (mn mon) Run(sh drv.Shard, c *drv.Ctx) {
 		}
 	}
 	c.Add("switch_rounds", st.switchRounds)
+	c.Add("toggle_updates", st.toggleRounds)
+	c.Add("lookups_judged_inside_a_quiescent_period", st.toggleJudged)
 	c.Add("trials", st.trials)
 	c.Add("trials_crossing_the_list_to_map_switch", st.crossed)
 	c.Add("lookups", st.probes)
